@@ -202,10 +202,11 @@ def r4(ctx, rep, ci):
         for i, out in guards:
             if out is False:
                 nmax += 1
-                ok = p.end == "return" and isinstance(p.end_node.value, ast.Call) and call_chain(p.end_node.value) == ("self", "_max_retries_reached") \
+                failed_future = p.end == "return" and isinstance(p.end_node.value, ast.Call) and call_chain(p.end_node.value) == ("self", "_max_retries_reached")
+                ok = (failed_future or p.end == "raise") \
                     and not any(ev.kind == "call" and (tags(ev) & {"recursive", "inner_send"}) for ev in p.events[i:])
-                rep.check(ok, "C04.R4", "exhausted:" + rep_key, fn.loc(p.events[i].node), "exhausted budget returns _max_retries_reached() without transmitting",
-                          bad="%s: with the retry budget exhausted the path does not end in 'return self._max_retries_reached()' [path %s]" % (fn.short, p.describe()))
+                rep.check(ok, "C04.R4", "exhausted:" + rep_key, fn.loc(p.events[i].node), "exhausted budget ends the request (failed future or exception) without transmitting",
+                          bad="%s: with the retry budget exhausted the path neither fails the request (return self._max_retries_reached() / raise) nor stops transmitting [path %s]" % (fn.short, p.describe()))
     if nrec == 0 or nmax == 0:
         raise AnalysisError("%s: no retry (%d) / no exhausted-budget path (%d) found" % (fn.short, nrec, nmax))
     # _max_retries_reached hands back a future that is already failed
